@@ -29,7 +29,7 @@ type c10Prog struct {
 }
 
 func genC10(t *rapid.T) c10Prog {
-	cfg := sim.GenConfig{MaxReplicas: 4, MaxOps: ev.Scale(26, 60), MinOps: 2, Codecs: []int{0}, AppendBias: 3, NoRebuild: true}
+	cfg := sim.GenConfig{MaxReplicas: 4, MaxOps: ev.Scale(26, 60), MinOps: 2, Codecs: []int{0}, AppendBias: 3, NoRebuild: true, LargeOneIn: ev.Scale(96, 64)}
 	w := sim.Gen(t, cfg)
 	p := c10Prog{World: w, Replica: rapid.IntRange(0, 11).Draw(t, "replica"), Merge: rapid.IntRange(0, 3).Draw(t, "merge") > 0}
 	p.Loader = rapid.IntRange(0, 3).Draw(t, "loader")
